@@ -117,7 +117,7 @@ def match(expected, got):
     return json_equal(expected, got)
 
 
-def one(seed, i, tier, res):
+def one(seed, i, tier, res, pool):
     rng = random.Random("%s:C10:%d" % (seed, i))
     which = rng.choice(["default", "default", "a", "b"])
     default = DEFAULTS[which]
@@ -154,9 +154,13 @@ def one(seed, i, tier, res):
     exp_message = dict(message)
     exp_message.update(expected)
 
-    fb, ft = RecordingFile("b"), RecordingFile("t")
-    db = FileDestination(file=fb, json_default=default)
-    dt = FileDestination(file=ft, json_default=default)
+    # one pair of destinations per json_default lives across all messages of the batch (state kept between messages would show)
+    if which not in pool:
+        fb0, ft0 = RecordingFile("b"), RecordingFile("t")
+        pool[which] = (fb0, ft0, FileDestination(file=fb0, json_default=default), FileDestination(file=ft0, json_default=default))
+    fb, ft, db, dt = pool[which]
+    mark_b, mark_t = len(fb.ops), len(ft.ops)
+    first_use = mark_b == 1 or mark_b == 0
     problems = []
     via_api = rng.random() < 0.25
     try:
@@ -183,10 +187,12 @@ def one(seed, i, tier, res):
         npairs = 0
 
     decoded_b = []
-    for name, f in (("binary", fb), ("text", ft)):
-        ops = f.ops
+    for name, f, mark in (("binary", fb, mark_b), ("text", ft, mark_t)):
+        ops = f.ops[mark:]
+        if mark <= 1 and name == "binary" and not (f.ops and f.ops[0][0] == "write" and len(f.ops[0][1]) == 0):
+            problems.append("binary: the first operation on the file is not the zero-length mode probe")
         # the mode probe write(b"") is recorded by the binary file and rejected (TypeError) by the text file
-        body = ops[1:] if (ops and ops[0][0] == "write" and len(ops[0][1]) == 0) else ops
+        body = ops[1:] if (mark == 0 and ops and ops[0][0] == "write" and len(ops[0][1]) == 0) else ops
         kinds = [o[0] for o in body]
         if kinds != ["write", "flush"] * npairs:
             problems.append("%s: operations for %d message(s) are %s, expected (write, flush) per message" % (name, npairs, kinds))
@@ -251,15 +257,18 @@ def one(seed, i, tier, res):
     if any(gen.value_interesting(v) for v in expected.values() if not isinstance(v, tuple)):
         res["nontrivial"].append(h(expected))
     if res.get("sample") is None and rich and len(fields) <= 3:
-        res["sample"] = {"message": exp_message, "binary_write": repr(fb.ops[1][1])[:300] if len(fb.ops) > 1 else None}
+        res["sample"] = {"message": exp_message, "binary_write": repr(fb.ops[-2][1])[:300] if len(fb.ops) > 1 else None}
     if problems:
         res["violations"].append({"msg": problems[0], "mech": None, "detail": {"case": i, "problems": problems[:8], "message": message}})
 
 
 def run_case(spec):
     res = {"evals": 0, "nontrivial": [], "counters": {}, "violations": [], "sample": None}
+    pool = {}
     for i in range(spec["lo"], spec["hi"]):
-        one(spec["seed"], i, spec["tier"], res)
+        if i % 50 == 0:
+            pool.clear()  # fresh destinations from time to time, long-lived ones in between
+        one(spec["seed"], i, spec["tier"], res, pool)
     return res
 
 
